@@ -551,15 +551,13 @@ struct WcEngine : public Engine
          NEWCASE;
          for (uint32_t c=0; c<256; c++) {fprintf(out, "tok %u 0\n", c); fprintf(out, "tok %u 1\n", c);}
       }
-      // (2) escape: every string up to length 3 (quick) / 4 (thorough) over {a,0} + every metacharacter, split over the
-      //     shards; strings starting with a backtick are finding "tick"'s trigger inputs (corpus/C15/wc-known-tick.ops)
+      // (2) escape: every string up to length 3 (quick) / 4 (thorough) over {a,0} + every metacharacter, split over the shards
       {
          const std::string sigma = std::string("a0") + kMeta;
          std::vector<std::string> all; allStrings(sigma, tier.thorough ? 4 : 3, all);
          uint32_t inCase = 0;
          for (size_t i=tier.shard; i<all.size(); i+=tier.nshards)
          {
-            if ((!all[i].empty())&&(all[i][0] == '`')) continue;
             if ((inCase++ % 200) == 0) NEWCASE;
             fprintf(out, "esc %s\n", hexOf(all[i]).c_str());
             if ((i/tier.nshards) % 8 == 0) {fprintf(out, "unesc %s\n", hexOf(all[i]).c_str()); fprintf(out, "cmm %s\n", hexOf(all[i]).c_str());}
@@ -569,7 +567,6 @@ struct WcEngine : public Engine
          {
             std::string s; const uint32_t len = r.range(4, 9);
             for (uint32_t j=0; j<len; j++) s.push_back(r.chance(1,20) ? (char)r.range(1,255) : sigma[r.below((uint32_t)sigma.size())]);
-            if (s[0] == '`') s[0] = 'a';
             if ((inCase++ % 200) == 0) NEWCASE;
             fprintf(out, "esc %s\n", hexOf(s).c_str());
             fprintf(out, "unesc %s\n", hexOf(s).c_str());
@@ -626,10 +623,10 @@ struct WcEngine : public Engine
       if (mstr(RemoveEscapeChars(es)) != s) {oracleFail("escape: RemoveEscapeChars(EscapeRegexTokens(s)) != s for s=" + hexOf(s)); return;}
       StringMatcher m;
       if (m.SetPattern(es, true).IsError()) {oracleFail("escape: the escaped string is not a valid pattern, s=" + hexOf(s)); return;}
-      const bool tick = (!s.empty())&&(s[0] == '`');
-      const char * tag = tick ? "escape-tick: " : "escape: ";
+      // (a leading backtick used to be left unescaped — finding "tick", fixed in /repo; corpus/C15/wc-known-tick.ops is its regression case)
+      const char * tag = "escape: ";
       if (!m.Match(s.c_str())) {oracleFail(std::string(tag) + "the escaped pattern does not match the string itself, s=" + hexOf(s)); return;}
-      if ((!tick)&&(!m.IsPatternUnique())) {oracleFail("escape: the escaped pattern is not reported unique, s=" + hexOf(s)); return;}
+      if (!m.IsPatternUnique()) {oracleFail("escape: the escaped pattern is not reported unique, s=" + hexOf(s)); return;}
       // exactness: no one-edit neighbour matches
       const std::string sigma = std::string("ab0") + kMeta;
       for (size_t i=0; i<=s.size(); i++)
